@@ -121,6 +121,24 @@ func (l *ExpandedLexer) nextToken() Token {
 	case 0:
 		tok.Type = EOF
 		tok.Literal = ""
+	case '@':
+		// the compact symbols stay valid in expanded text: `glyph expand` only rewrites
+		// a symbol at the start of a line, and '%' is also the modulo operator
+		tok.Type = AT
+		tok.Literal = string(l.ch)
+		l.readChar()
+	case '$':
+		tok.Type = DOLLAR
+		tok.Literal = string(l.ch)
+		l.readChar()
+	case '%':
+		tok.Type = PERCENT
+		tok.Literal = string(l.ch)
+		l.readChar()
+	case '~':
+		tok.Type = TILDE
+		tok.Literal = string(l.ch)
+		l.readChar()
 	case ':':
 		tok.Type = COLON
 		tok.Literal = string(l.ch)
